@@ -44,6 +44,9 @@ def plan(pid, tier, seed):
     S = []
     M = []
     base = seed * 1000
+    if pid in ("C02", "C03", "C04", "C05", "C07"):
+        # complete enumeration of small fork trees (specification -> implementation)
+        S += scen.enum_trees(tier, seed)
     if pid in ("C01", "C04", "C05"):
         S += scen.directed(pid, tier)
         S += [gen.random_history(base + i, nblocks=n(tier, 14, 22), heavy_probes=True) for i in range(n(tier, 10, 60))]
